@@ -76,12 +76,12 @@ Proof. exact plain_data_eval. Qed.
    denotes VM value v (layer A's relation) evaluates -- in an environment where _var<i> is bound to
    the stand-in it names and node displays are rebuilt from the final nodes -- to a value
    observationally equal to v *)
-Theorem C05_eval_denotes : forall P al ns h imps vars bound,
+Theorem C05_eval_denotes : forall P al ns h imps vars bound okname,
   Forall2 (rel_node al) ns h -> forallb (obj_wf P) h = true ->
   (forall i x, i < bound -> nth_error al i = Some x ->
      exists y, lookup_var i vars = Some y /\ leaf_same x y = true) ->
-  (forall m n, P (VGlobal m n) = true -> leaf_same (VGlobal m n) (lookup_name n imps) = true) ->
-  forall n e v hp, fits n ns bound e = true -> rel al e v -> wfv P v = true ->
+  (forall m n, P (VGlobal m n) = true -> okname n = true -> leaf_same (VGlobal m n) (lookup_name n imps) = true) ->
+  forall n e v hp, fits n ns bound okname e = true -> rel al e v -> wfv P v = true ->
   exists v' hp', eval ns imps vars n e hp = Ok (v', hp ++ hp') /\
                  same_shape n h (hp ++ hp') v v' = true.
 Proof. exact eval_denotes. Qed.
@@ -91,7 +91,7 @@ Proof. exact eval_denotes. Qed.
 Theorem C05_vm_wellformed : forall p v,
   vrun p = Ok v -> vm_wf any_standin v = true.
 Proof.
-  intros p v H. apply vm_wf_WF. eapply wf_run; [right; reflexivity | exact H | apply WF_init].
+  intros p v H. apply vm_wf_WF. eapply wf_run; [right; split; reflexivity | exact H | apply WF_init].
 Qed.
 
 (* non-vacuity: the shared dict [d, d] (acyclic, depth 3): hypotheses hold, the evaluated result is
